@@ -12,9 +12,10 @@ EXTENDS Tzif
 (*   local-<unique|gap|overlap> / <position> [...] [/trunc-sensitive]                                     *)
 MaxS(S) == CHOOSE x \in S : \A y \in S : y <= x
 MinS(S) == CHOOSE x \in S : \A y \in S : x <= y
-\* rule position, refined: inside the calendar month (UTC) of one of the two rule transitions, or elsewhere
+\* rule position, refined: within a calendar month (UTC, give or take a day) of one of the two rule transitions, or elsewhere
 RuleMonth(F, t) == IF F.start.k = "M" /\ F.end.k = "M"
-                   THEN (IF CivilFromDays(t.d).m \in {F.start.m, F.end.m} THEN "/transition-month" ELSE "/other-month")
+                   THEN (IF {CivilFromDays(t.d + j).m : j \in {-1, 0, 1}} \cap {F.start.m, F.end.m} # {}
+                         THEN "/transition-month" ELSE "/other-month")
                    ELSE ""
 FooterCls(F, t) == RuleShape(F) \o (IF F.kind = "rule"
                                     THEN "/" \o RulePos(F, t) \o (IF RulePos(F, t) \in {"in-dst", "in-std"} THEN RuleMonth(F, t) ELSE "")
